@@ -224,7 +224,7 @@ def validate(ctx, drv, what, extra_key=None):
         hist = [x['stmt'] for x in evs[b:i]]
         key = {'clause': clause, 'op': e['op'], 'arm': what}
         key.update(classify(e, clause))
-        ctx.reject('C10 %s at %r (%s %s%s) [%s, step %d of its session] after ...%s' % (
+        ctx.reject(ctx.pid + ' %s at %r (%s %s%s) [%s, step %d of its session] after ...%s' % (
             clause, e['stmt'], e['kind'], e['code'], ' ' + e.get('detail', '') if e.get('detail') else '', what, i - b, hist[-6:-1]),
             key=key, data={'event': {k: e[k] for k in e if k != 'chg'}, 'session': hist[-60:]})
     for e in evs:
@@ -521,7 +521,7 @@ class Gen(object):
         return {'op': 'fre0'}
 
 
-def code_to_spec(ctx):
+def code_to_spec(ctx, nhist=None):
     rng = ctx.rng
     d = Drv(ctx, SCAL, ARRS, FNPROG)
     # measure the variable area of the set-up once (default memory) to scale CLEAR sizes
@@ -530,7 +530,7 @@ def code_to_spec(ctx):
     for a in ARRS:
         d.s.ex('DIM %s(%s)' % (a[0], a[1]))
     ae_setup = int(d.s.ev(AE)[1])
-    nhist = ctx.pick(70, 250)
+    nhist = nhist or ctx.pick(70, 250)
     ops = 0
     plan = []
     for h in range(nhist):
